@@ -393,6 +393,9 @@ impl C17 {
         out.nontrivial = n >= 2;
         out.tag(if functional { "nl:functional" } else { "nl:duplicate-smaller" });
         let m = drv.ask(case);
+        // reply: `<specification> | <transcription, ascending order> | <same for descending order>`
+        let mut parts = m.split(" | ");
+        let (m_spec, m_tr, m_same) = (parts.next().unwrap().to_string(), parts.next().unwrap().to_string(), parts.next().unwrap().to_string());
         let res = caught(|| {
             let (prog, warnings) = NextLargerProgram::new(es.iter().map(|e| (Char(e.0), Char(e.1))), |c| !ne.contains(&c.0), drop);
             let chains: Vec<Vec<u8>> = (0..=255u8).map(|c| prog.get(Char(c)).map(|c| c.0).collect()).collect();
@@ -407,6 +410,9 @@ impl C17 {
                     // (the in-degree bookkeeping of `new` counts the overwritten link and panics).
                     // Recorded in the histogram and in notes/C17.md only.
                     out.tag("nl:duplicate-smaller-panics");
+                    if m_tr != "panic" {
+                        out.tag("nl:duplicate-smaller-transcription-does-not-panic");
+                    }
                 }
             }
             Ok((warnings, chains)) => {
@@ -449,7 +455,17 @@ impl C17 {
                 let fmt = |v: &Vec<i64>| if v.is_empty() { "0".to_string() } else { format!("{} {}", v.len() / 2, join(v)) };
                 let chs = if ch.is_empty() { "0".to_string() } else { format!("{} {}", nk, join(&ch)) };
                 let i = format!("{} ; {} ; {}", fmt(&w1), fmt(&w2), chs);
-                let (m_main, m_algo) = m.rsplit_once(" ; ").unwrap();
+                let m_main = m_spec.as_str();
+                // I vs M: the transcription of `new`/`get` (loop warnings and chains)
+                let i_tr = format!("{} ; {}", fmt(&w2), chs);
+                if i_tr != m_tr {
+                    if functional {
+                        let what = if m_tr == "panic" || m_tr == "fuel" { m_tr.as_str() } else if i_tr.split(" ; ").next() != m_tr.split(" ; ").next() { "cycle cuts" } else { "chains" };
+                        out.fail(Kind::ImplVsModel, "nl", format!("next-larger differs from the transcription: {what}"), format!("impl {i_tr}\nmodel {m_tr}"));
+                    } else {
+                        out.tag("nl:duplicate-smaller-differs-from-transcription");
+                    }
+                }
                 if i != m_main || !order_ok {
                     // which part?
                     let ip: Vec<&str> = i.split(" ; ").collect();
@@ -467,8 +483,11 @@ impl C17 {
                         out.tag("nl:duplicate-smaller-differs");
                     }
                 }
-                if functional && m_algo != "algo=1" {
-                    out.fail(Kind::ModelVsSpec, "nl", "work-list model differs from cut-graph spec", m.to_string());
+                if functional && m_same != "1" {
+                    out.fail(Kind::ModelVsSpec, "nl", "transcription depends on the HashMap iteration order", m.to_string());
+                }
+                if functional && m_tr != format!("{} ; {}", m_main.split(" ; ").nth(1).unwrap_or(""), m_main.split(" ; ").nth(2).unwrap_or("")) {
+                    out.fail(Kind::ModelVsSpec, "nl", "transcription differs from the cut-graph specification", m.to_string());
                 }
             }
         }
